@@ -3,7 +3,7 @@
 (* C16: HTTP/2 connection starts (preface, control frames, HEADERS with    *)
 (* optional padding / priority / CONTINUATION) for header lists encoded in *)
 (* every HPACK representation, with the report Http2!H2Meaning assigns.    *)
-(* Families (IOEnv.VERIF_FAM): rep, framing, prefix, dyn, resp, values.    *)
+(* Families: rep, framing, prefix, dyn, dynsettings, resp, values.           *)
 (***************************************************************************)
 EXTENDS Http2, Json, IOUtils, TLC, SequencesExt, FiniteSets
 
@@ -79,6 +79,17 @@ DynCases ==
               <<Fld(E("x-a", "1"), 4), Fld(E("x-b", "2"), 3), Fld(E("x-a", "1"), 1), Fld(E("x-b", "2"), 1), Fld(E("x-a", "other"), 2)>>,
               <<Fld(E("user-agent", "curl/8.0"), 2), Fld(E("user-agent", "curl/8.0"), 1), Fld(E("accept", "*/*"), 7)>>}}
 
+\* ---- dynsettings: the sender's own SETTINGS_HEADER_TABLE_SIZE (and other settings) do not govern the table its encoder
+\* uses for the blocks it sends (RFC 7540 6.5.2: the value limits what the *peer's* encoder may use; the sender's encoder
+\* stays at 4096 until the peer says otherwise), so blocks with dynamic references decode the same under any of them
+Hts(v) == SettingsFrame(<<[id |-> 1, val |-> v]>>, FALSE)
+DynSettingsCases ==
+  {Vec(isreq, pre, [updates |-> <<>>, fields |-> (IF isreq THEN [i \in 1..4 |-> Fld(ReqPseudo[i], 1)] ELSE <<Fld(E(":status", "200"), 1)>>) \o fs], Plain, <<>>, "dynsettings") :
+      isreq \in BOOLEAN,
+      pre \in {Hts(<<0, 0>>), Hts(<<0, 40>>), Hts(<<0, 41>>), Hts(<<0, 4095>>), Hts(<<0, 0>>) \o Hts(<<1, 0>>), SettingsFrame(<<[id |-> 2, val |-> <<0, 0>>], [id |-> 1, val |-> <<0, 1>>], [id |-> 6, val |-> <<0, 10>>]>>, FALSE)},
+      fs \in {<<Fld(E("x-custom", "v1"), 2), Fld(E("x-custom", "v1"), 1)>>,
+              <<Fld(E("x-a", "1"), 4), Fld(E("x-b", "2"), 3), Fld(E("x-a", "1"), 1), Fld(E("x-b", "2"), 1), Fld(E("x-a", "other"), 2)>>}}
+
 \* ---- resp
 RespCases ==
   {Vec(FALSE, pre, Block([i \in 1..Len(l) |-> Fld(l[i], ((i + r) % NR) + 1)]), o, <<>>, "resp") :
@@ -95,7 +106,7 @@ ValueCases ==
       v \in {"", "a", Chars("z", 126), Chars("q", 127), Chars("m", 300), "~!@#$%^&*()_+{}|:<>?`-=[];',./ ", "0123456789"}}
 
 \* TLC evaluates every constant definition at start-up, so all families are emitted by one run
-Cases == RepCases \cup FramingCases \cup PrefixCases \cup DynCases \cup RespCases \cup ValueCases
+Cases == RepCases \cup FramingCases \cup PrefixCases \cup DynCases \cup DynSettingsCases \cup RespCases \cup ValueCases
 CaseSeq == SetToSeq(Cases)
 Emit(i) == PrintT("REPLAY " \o ToJson([i |-> i] @@ CaseSeq[i]))
 Init == shard \in 0..(Shards - 1) /\ phase = 0
